@@ -230,13 +230,17 @@ def apply(objs, op, keep):
     if k == "t":
         x = objs["t0"]
         if n == "translate":
-            return sorted(tuple(o) for o in x.translate(list(w)))
+            import itertools
+            return sorted(tuple(o) for o in itertools.islice(x.translate(list(w)), 2000))
         if n == "star":
             s = x.kleene_star()
-            return sorted(tuple(o) for o in s.translate(list(w)))
+            import itertools
+            # the star of a transducer with output-writing epsilon moves has infinitely many outputs: cap
+            return sorted(tuple(o) for o in itertools.islice(s.translate(list(w)), 2000))
         if n == "union_self":
             u = x.union(x)
-            return sorted(set(tuple(o) for o in u.translate(list(w))))
+            import itertools
+            return sorted(set(tuple(o) for o in itertools.islice(u.translate(list(w)), 2000)))
     if k == "i":
         x = objs["i0"]
         if n == "is_empty":
@@ -260,9 +264,9 @@ def run_case(case, drv):
         res.tag("snapshot_fail")
         return res
     for idx, op in enumerate(ops):
-        got = outcome(lambda: apply(live, op, None), limit=8.0)
+        got = outcome(lambda: apply(live, op, None), limit=8.0, retry=False)   # some operations legitimately diverge (FST star with writing cycles)
         st, fresh_objs = outcome(lambda: build_pool(specs), limit=10.0)
-        want = outcome(lambda: apply(fresh_objs, op, None), limit=8.0)
+        want = outcome(lambda: apply(fresh_objs, op, None), limit=8.0, retry=False)
         res.evals += 1
         if got[0] == "timeout" or want[0] == "timeout":
             res.tag("timeout")
